@@ -22,6 +22,11 @@ Engine E2 (mc.inputs): bounded exhaustive enumeration of inputs x configurations
                          TextIOWrapper(BytesIO()) whose newest lines were written through the object and are still
                          unflushed, and a text-mode file that was already read from; same oracle (the content is
                          what reading the object back would show).
+  part reverse_iter_lines-file-wrappers  files that are not instances of an io class (they have .encoding / .detach /
+                         .seek by delegation only): codecs.open(), tempfile.NamedTemporaryFile and SpooledTemporaryFile
+                         (in memory and rolled over) in text and binary mode, a user-written forwarding proxy around a
+                         text file / TextIOWrapper / binary file / raw file / BytesIO; gzip files, an mmap; contents two tokens shorter,
+                         reduced block sizes; same oracle.  Part jsonl-file-wrappers: part jsonl (<= 2 lines) over them.
   part reverse_iter_lines-block-edges  directed: files a little larger than twice jsonutils.DEFAULT_BLOCKSIZE made of a
                          repeated pattern (CRLF, 2/3/4-byte characters, empty lines), shifted so that every byte of the
                          pattern falls on a block edge, read with the default block, the constant, +-1 and x2.
@@ -62,12 +67,17 @@ Engine E2 (mc.inputs): bounded exhaustive enumeration of inputs x configurations
 
 Real files live in a scratch directory under /dev/shm which is removed at the end of the run.
 """
+import codecs
+import gzip
 import io
 import itertools
 import json
+import mmap
 import os
 import shutil
 import signal
+import sys
+import tempfile
 
 from mc import core, inputs
 
@@ -398,8 +408,106 @@ REV_WRITTEN_MODES = ('file-text-w+-unflushed', 'file-text-a+-unflushed', 'file-t
 REV_STATE_MODES = REV_WRITTEN_MODES + ('file-text-partly-read',)
 REV_STATE_MODES_QUICK = tuple(m for m in REV_STATE_MODES if m != 'file-text-r+-unflushed')    # r+ differs from a+ only
                                                                                               # in how it is opened
+# "a binary or text-mode file" that is not an instance of an io class: the file objects of codecs.open() and of the
+# tempfile module, and a user-written wrapper that forwards every attribute to the file it wraps.  They have the
+# attributes of a file (encoding, detach, seek, tell, read) by delegation only.
+# Plus seekable files of the standard library other than open() / BytesIO: a gzip file in binary and in text mode
+# (a TextIOWrapper whose buffer is not a Buffered* object) and a memory-mapped file (mmap cannot map an empty file: the
+# empty content is passed as a plain BytesIO there).
+WRAP_TEXT_MODES = ('codecs-open-text', 'proxy-file-text', 'proxy-textio-bytesio', 'namedtemp-w+', 'spooled-w+',
+                   'spooled-w+-rolled', 'gzip-rt')
+WRAP_BINARY_MODES = ('proxy-file-rb-unbuffered', 'proxy-file-rb', 'proxy-bytesio', 'namedtemp-w+b', 'spooled-w+b',
+                     'spooled-w+b-rolled', 'gzip-rb', 'mmap')
+WRAP_MODES = tuple(m for pair in zip(WRAP_TEXT_MODES, WRAP_BINARY_MODES) for m in pair) + WRAP_BINARY_MODES[len(WRAP_TEXT_MODES):]
+WRAP_WRITTEN_MODES = tuple(m for m in WRAP_MODES if m.startswith(('namedtemp', 'spooled')))    # content written
+                                                                                # through the object, cursor at the end
 TEXT_MODES = ('file-text', 'textio-bytesio', 'file-text-w+-unflushed', 'file-text-a+-unflushed',
-              'file-text-r+-unflushed', 'textio-bytesio-unflushed', 'file-text-partly-read')
+              'file-text-r+-unflushed', 'textio-bytesio-unflushed', 'file-text-partly-read') + WRAP_TEXT_MODES
+
+
+class FileProxy:
+    """A user-written file wrapper (not an io class): every attribute is the wrapped file's."""
+
+    def __init__(self, wrapped):
+        self._wrapped = wrapped
+
+    def __getattr__(self, name):
+        return getattr(self._wrapped, name)
+
+    def __iter__(self):
+        return iter(self._wrapped)
+
+
+def _closer(*objs):
+    """Close the wrapper (it may complain that its stream was detached) and then the raw objects underneath."""
+    def close():
+        for o in objs:
+            try:
+                o.close()
+            except Exception:
+                pass
+    return close
+
+
+def _raw_of(f):
+    """The innermost io object of a TextIOWrapper / Buffered* / raw file (the one that owns the descriptor)."""
+    for _ in range(4):
+        nxt = getattr(f, 'buffer', None) or getattr(f, 'raw', None)
+        if nxt is None:
+            break
+        f = nxt
+    return f
+
+
+def open_wrapped(mode, data, path):
+    """Returns (file object that is not an io class, closer) for the modes in WRAP_MODES."""
+    if mode == 'codecs-open-text':
+        f = codecs.open(path, 'r', encoding='utf-8')            # a codecs.StreamReaderWriter
+        return f, _closer(f, _raw_of(f.stream))
+    if mode in ('proxy-file-text', 'proxy-file-rb', 'proxy-file-rb-unbuffered'):
+        inner = (open(path, 'r', encoding='utf-8') if mode == 'proxy-file-text' else
+                 open(path, 'rb', buffering=0 if mode.endswith('unbuffered') else -1))
+        return FileProxy(inner), _closer(_raw_of(inner))
+    if mode in ('proxy-textio-bytesio', 'proxy-bytesio'):
+        b = io.BytesIO(data)
+        return FileProxy(io.TextIOWrapper(b, encoding='utf-8') if mode == 'proxy-textio-bytesio' else b), _closer(b)
+    if mode in ('gzip-rb', 'gzip-rt'):
+        zpath = path[:-len('.dat')] + '-z.dat'
+        with gzip.open(zpath, 'wb', compresslevel=1) as g:
+            g.write(data)
+        raw = open(zpath, 'rb')
+        f = gzip.GzipFile(fileobj=raw, mode='rb')
+        if mode == 'gzip-rt':
+            return io.TextIOWrapper(f, encoding='utf-8'), _closer(f, raw)
+        return f, _closer(f, raw)
+    if mode == 'mmap':
+        if not data:
+            b = io.BytesIO(data)
+            return b, _closer(b)
+        with open(path, 'rb') as g:
+            f = mmap.mmap(g.fileno(), 0, access=mmap.ACCESS_READ)
+        return f, _closer(f)
+    text = mode in WRAP_TEXT_MODES
+    kw = {'encoding': 'utf-8', 'newline': ''} if text else {}
+    if mode.startswith('namedtemp'):
+        f = tempfile.NamedTemporaryFile('w+' if text else 'w+b', dir=os.path.dirname(path), suffix='.dat', **kw)
+        raw = _raw_of(f.file)
+    elif mode.startswith('spooled'):
+        f = tempfile.SpooledTemporaryFile(max_size=0, mode='w+' if text else 'w+b', dir=os.path.dirname(path),
+                                          suffix='.dat', **kw)
+        raw = None
+    else:
+        raise AssertionError(mode)
+    f.write(data.decode('utf-8') if text else data)
+    if raw is None:
+        if mode.endswith('-rolled'):
+            f.rollover()                                        # from now on a real (anonymous) file on disk
+        raw = _raw_of(f._file)
+    return f, _closer(f, raw)
+
+
+def _quiet_unraisable(unraisable):
+    pass
 
 
 def open_mode(mode, data, path):
@@ -423,6 +531,8 @@ def open_mode(mode, data, path):
         f = open(path, 'r', encoding='utf-8', newline='')
         f.read(1)                               # the wrapper now holds a decoded read-ahead chunk
         return f, f.buffer.raw.close
+    if mode in WRAP_MODES:
+        return open_wrapped(mode, data, path)
     if mode in REV_WRITTEN_MODES:
         # the first half of the characters is in the file already, the second half is written through the object and
         # not flushed (w+: everything is pending).  newline='' : no translation in either direction.
@@ -454,7 +564,7 @@ def open_mode(mode, data, path):
 def call_reverse(jsonutils, mode, data, path, blocksize, preseek):
     f, closer = open_mode(mode, data, path)
     try:
-        if not preseek and mode not in REV_WRITTEN_MODES:
+        if not preseek and mode not in REV_WRITTEN_MODES and mode not in WRAP_WRITTEN_MODES:
             f.seek(0, os.SEEK_END)          # "the file cursor is already in position ... at the end of the file"
         # (a file that has just been written to has its cursor at the end; seeking would flush the pending lines)
         kw = {}
@@ -471,10 +581,16 @@ def call_reverse(jsonutils, mode, data, path, blocksize, preseek):
             return ('exc', type(e).__name__)
         return drain(it, limit=max(ITEM_LIMIT, len(data) + 2))      # a file of n bytes has at most n + 1 lines
     finally:
+        # a tempfile object whose stream was detached complains in its __del__: drop it here, quietly
+        hook, sys.unraisablehook = sys.unraisablehook, _quiet_unraisable
         try:
-            closer()
-        except Exception:
-            pass
+            try:
+                closer()
+            except Exception:
+                pass
+            f = it = closer = None
+        finally:
+            sys.unraisablehook = hook
 
 
 def rev_expected(content, textmode):
@@ -526,7 +642,7 @@ def rev_tags(content):
 
 def check_rev_content(jsonutils, content, path, modes, t, blocksizes=None, part='reverse_iter_lines'):
     data = content.encode('utf-8')
-    if any(m.startswith('file') for m in modes):
+    if any(m.startswith('file') or m in WRAP_MODES for m in modes):
         with open(path, 'wb') as f:
             f.write(data)
     has_break = '\n' in content
@@ -569,7 +685,7 @@ def state_blocksizes(nbytes):
 def rev_shard(arg):
     from boltons import jsonutils
     scratch, n, prefix, modes = arg
-    few = tuple(modes) in (REV_STATE_MODES, REV_STATE_MODES_QUICK)
+    few = tuple(modes) in (REV_STATE_MODES, REV_STATE_MODES_QUICK, WRAP_MODES)
     t = inputs.Tally()
     path = os.path.join(scratch, 'rev-%d.dat' % os.getpid())
     fds0 = len(os.listdir('/proc/self/fd')) if os.path.isdir('/proc/self/fd') else None
@@ -834,6 +950,7 @@ BADUTF = '{"b": "\udcff\udcfe"}'     # stands for a line holding the bytes ff fe
 JSONL_MENU = ('{}', '{"1": 1}', '', '[1, "\u00e9"]', '{corrupt', '   ', LONG_NAME, BADUTF, 'null')     # null: a record that is None
 BLANK = ('', '   ')
 JSONL_KINDS = ('file-text', 'file-rb', 'bytesio')
+JSONL_WRAP_KINDS = ('codecs-open-text', 'proxy-file-text', 'proxy-file-rb', 'namedtemp-w+', 'spooled-w+-rolled', 'spooled-w+b')
 
 
 def line_text(tok):
@@ -879,6 +996,11 @@ def open_jsonl(kind, data, path):
     if kind == 'textio-bytesio':
         b = io.BytesIO(data)
         return io.TextIOWrapper(b, encoding='utf-8'), b.close
+    if kind in WRAP_MODES:
+        f, closer = open_wrapped(kind, data, path)
+        if kind in WRAP_WRITTEN_MODES:
+            f.seek(0)                   # written through the object: back to the start, as a reader would
+        return f, closer
     raise AssertionError(kind)
 
 
@@ -917,10 +1039,15 @@ def run_jsonl(jsonutils, kind, data, path, ignore_errors, reverse, blocksize, pr
         return ('ok', out)
     finally:
         jsonutils.reverse_iter_lines = orig
+        hook, sys.unraisablehook = sys.unraisablehook, _quiet_unraisable      # see call_reverse
         try:
-            closer()
-        except Exception:
-            pass
+            try:
+                closer()
+            except Exception:
+                pass
+            f = it = closer = None
+        finally:
+            sys.unraisablehook = hook
 
 
 def jsonl_blocksizes(nbytes, quick):
@@ -951,7 +1078,7 @@ def check_jsonl_file(jsonutils, lines, eol, trailing, path, kinds, quick, t):
         f.write(data)
     nontrivial = len(lines) >= 2 and any(l in BLANK or l in ('{corrupt', BADUTF) for l in lines)
     for kind in kinds:
-        if kind == 'file-text' and BADUTF in lines:
+        if (kind == 'file-text' or kind in WRAP_TEXT_MODES) and BADUTF in lines:
             continue        # a text-mode file fails in its own decoder, before JSONLIterator sees the line
         for ignore_errors in (False, True):
             configs = [(False, None)] + [(True, bs) for bs in jsonl_blocksizes(len(data), quick)]
@@ -1448,6 +1575,8 @@ def bounds(ctx):
         'rev_maxtok': 5 if q else 6,
         'rev_state_maxtok': 4 if q else 5,
         'enc_maxtok': 3 if q else 4,
+        'rev_wrap_maxtok': 3 if q else 4,
+        'jsonl_wrap_maxlines': 2,
         'enc_jsonl_maxlines': 2 if q else 3,
         'rev_state_modes': REV_STATE_MODES_QUICK if q else REV_STATE_MODES,
         'jsonl_maxlines': 3 if q else 4,
@@ -1480,6 +1609,12 @@ def run(ctx):
             ctx, rev_shard, rev_shards(scratch, b['rev_state_maxtok'], b['rev_state_modes']),
             part='reverse_iter_lines-file-state',
             rule='content contains at least one \\n or \\r\\n (case = content x blocksize x file state x preseek)')
+        HANG_FLAG = os.path.join(scratch, 'HANG-2w')
+        t2w = inputs.run_shards(
+            ctx, rev_shard, rev_shards(scratch, b['rev_wrap_maxtok'], WRAP_MODES),
+            part='reverse_iter_lines-file-wrappers',
+            rule='content contains at least one \\n or \\r\\n (case = content x blocksize x kind of file object x '
+                 'preseek)')
         HANG_FLAG = os.path.join(scratch, 'HANG-2c')
         t2c = inputs.run_shards(
             ctx, edge_shard, [(scratch, pi, REV_MODES + REV_STATE_MODES) for pi in range(len(EDGE_PATTERNS))],
@@ -1509,6 +1644,12 @@ def run(ctx):
             part='jsonl',
             rule='file has >= 2 lines and at least one blank or corrupt line '
                  '(case = file x file kind x ignore_errors x direction x block size)')
+        HANG_FLAG = os.path.join(scratch, 'HANG-3w')
+        t3w = inputs.run_shards(
+            ctx, jsonl_shard, jsonl_shards(scratch, b['jsonl_wrap_maxlines'], ('\n',), JSONL_WRAP_KINDS, True),
+            part='jsonl-file-wrappers',
+            rule='file has >= 2 lines and at least one blank or corrupt line '
+                 '(case = file x kind of file object x ignore_errors x direction x block size)')
         HANG_FLAG = os.path.join(scratch, 'HANG-3b')
         t3b = inputs.run_shards(
             ctx, gap_shard, gap_shards(scratch, ctx.quick()), part='jsonl-long-gaps',
@@ -1529,13 +1670,13 @@ def run(ctx):
     finally:
         HANG_FLAG = None
         shutil.rmtree(scratch, ignore_errors=True)
-    leaked = t2.extra.get('harness_open_files_left', 0) + t2s.extra.get('harness_open_files_left', 0)
+    leaked = sum(t.extra.get('harness_open_files_left', 0) for t in (t2, t2s, t2w))
     if leaked:
         ctx.note('harness: %d file descriptors were still open at the end of reverse_iter_lines shards' % leaked)
     ctx.coverage['rule'] = ('non-trivial = the input contains a line break (iter_splitlines, reverse_iter_lines) / '
                             'the JSONL file has >= 2 lines with a blank or corrupt one; every counted case is a '
                             'distinct (input, configuration) tuple by construction')
-    cut = sum(t.extra.get('cut_short_after_hang', 0) + t.extra.get('hangs', 0) for t in (t1, t1b, t2, t2s, t2c, t2e, t2d, t2b, t3, t3b, t3c, t3d))
+    cut = sum(t.extra.get('cut_short_after_hang', 0) + t.extra.get('hangs', 0) for t in (t1, t1b, t2, t2s, t2w, t2c, t2e, t2d, t2b, t3, t3w, t3b, t3c, t3d))
     ctx.coverage['exhaustive'] = not cut
     if cut:
         ctx.note('a call into the code under test did not terminate within %d CPU-seconds: the remaining shards were '
@@ -1566,6 +1707,17 @@ def run(ctx):
             'unflushed': 'the second half of the characters (w+ / TextIOWrapper(BytesIO()): all of them) was written '
                          'through the object handed over and not flushed',
             'preseek': [True, 'False (not for the partly read file): the cursor is at the end after the writes']},
+        'reverse_iter_lines-file-wrappers': {
+            'tokens': list(REV_TOKENS), 'max_tokens': b['rev_wrap_maxtok'],
+            'blocksizes': '1, 2, 3, len(bytes)-1, len(bytes), len(bytes)+1 and the default 4096',
+            'kinds of file object': list(WRAP_MODES),
+            'meaning': 'codecs.open(), tempfile.NamedTemporaryFile / SpooledTemporaryFile (in memory / rolled over to '
+                       'disk; content written through the object) and a user-written proxy that forwards every '
+                       'attribute: files in text or binary mode that are not instances of an io class; a gzip file '
+                       '(binary / text mode) and an mmap',
+            'preseek': [True, 'False with the cursor at the end']},
+        'jsonl-file-wrappers': {'line_menu': list(JSONL_MENU), 'max_lines': b['jsonl_wrap_maxlines'], 'eol': ['\n'],
+                                'kinds': list(JSONL_WRAP_KINDS), 'directions': 'as for part jsonl'},
         'jsonl-corrupt-forms': {
             'values': list(FORM_VALUES), 'blank_forms': list(FORM_BLANKS), 'damages': [d[0] for d in FORM_DAMAGES] + ['too-deep (ignore_errors only)'],
             'lookalike_breaks': {'characters': list(LOOKALIKES), 'templates (X = the character)':
